@@ -305,6 +305,10 @@ def generate(REPO, emit, read):
             return []
         if st == 'self.print_layer(cur_layer)':
             return []
+        mm = re.fullmatch(r'self\.(\w+)\(\)', st)
+        if mm:
+            # an infallible helper method: the model decides whether it knows it (`stepKnown`)
+            return [f'.effect {lean_str(mm.group(1))}']
         if st == 'Ok(())':
             return []
         return [f'.unknown {lean_str(st[:80])}']
@@ -318,6 +322,17 @@ def generate(REPO, emit, read):
     if '.parse' not in steps:
         raise SystemExit('gen(g_reload): the parse step of do_live_reload was not recognised')
     reset_rhs = [(f, rhs) for (f, rhs, fc) in assigns_rhs if not fc]
+    # helper methods called as `self.m();`: which struct fields do their bodies write?
+    effect_writes = []
+    for st_ in steps:
+        mm = re.match(r'\.effect "(\w+)"', st_)
+        if not mm:
+            continue
+        hb = fn_body(src, r'\bfn ' + mm.group(1) + r'\s*\(')
+        for fld in fields:
+            if re.search(r'\bself\.' + fld + r'\s*(?:\|=|\+=|-=|=(?!=))', hb) or \
+               re.search(r'\bself\.' + fld + r'\s*\.\s*(?:push|clear|append|extend|insert|retain|remove|entry|drain)\b', hb):
+                effect_writes.append((mm.group(1), fld))
 
     # ---------------------------------------------------------------- (c) constructors
     def ctor(header_re):
@@ -475,6 +490,8 @@ def generate(REPO, emit, read):
     L.append('  | assign (f : Field) (fromCfg : Bool)')
     L.append('  /-- `if let Some(tx) = _tx { tx.try_send(ServerMessage::<msg> {..}) }` -/')
     L.append('  | notify (msg : String)')
+    L.append('  /-- `self.<method>();` — an infallible helper that touches no field of the struct -/')
+    L.append('  | effect (method : String)')
     L.append('  /-- `let cur_layer = self.layout.bm().current_layer();` -/')
     L.append('  | bindCurLayer')
     L.append('  /-- a statement the translator does not understand: the model refuses it (`steps_all_known`) -/')
@@ -485,6 +502,9 @@ def generate(REPO, emit, read):
     L.append('def reloadSteps : List RStep := [')
     L.append(',\n'.join('  ' + s for s in steps))
     L.append(']')
+    L.append('')
+    L.append('/-- (helper method, field) for every struct field that a helper called as `self.m();` assigns or mutates in place -/')
+    L.append('def effectWrites : List (String × String) := [' + ', '.join(f'({lean_str(m_)}, {lean_str(f_)})' for m_, f_ in effect_writes) + ']')
     L.append('')
     L.append('/-- right-hand sides of the assignments that do not mention `cfg` -/')
     L.append('def reloadResetRhs : List (Field × String) := [' + ', '.join(f'(.{ctor_name(f)}, {lean_str(r)})' for f, r in reset_rhs) + ']')
